@@ -11,6 +11,7 @@ static void subscribtions_dtor(void *data);
 static ev_src_t *fetch_sub(m_mod_t *mod, const char *topic);
 static inline bool is_system_message(const char *topic);
 static int tell_if(void *data, const char *key, void *value);
+static void tell_mod(ps_priv_t *msg, ev_src_t *sub, m_mod_t *mod);
 static ps_priv_t *alloc_ps_msg(const ps_priv_t *msg, ev_src_t *sub);
 static void ps_msg_dtor(void *data);
 static void tell_subscribers(void *data, void *value);
@@ -66,9 +67,14 @@ static int tell_if(void *data, const char *key, void *value) {
     ps_priv_t *msg = (ps_priv_t *)data;
     ev_src_t *sub = msg->msg.topic ? (ev_src_t *)key : NULL;                 // key is indeed a subscription when we are publishing (check tell_subscribers()) !!
 
-    if (mod->state & (M_MOD_RUNNING | M_MOD_PAUSED) &&                       // mod is running or paused
-        (!msg->msg.topic || sub)) {                                          // it is a publish and mod is subscribed on topic, or it is a broadcast/direct tell message
+    if (!msg->msg.topic || sub) {                                            // it is a publish and mod is subscribed on topic, or it is a broadcast message
+        tell_mod(msg, sub, mod);
+    }
+    return 0;
+}
 
+static void tell_mod(ps_priv_t *msg, ev_src_t *sub, m_mod_t *mod) {
+    if (mod->state & (M_MOD_RUNNING | M_MOD_PAUSED)) {                       // mod is running or paused
         M_DEBUG("Telling a message to '%s'\n", mod->name);
         ps_priv_t *m = alloc_ps_msg(msg, sub);
         if (m) {
@@ -78,7 +84,6 @@ static int tell_if(void *data, const char *key, void *value) {
             }
         }
     }
-    return 0;
 }
 
 static ps_priv_t *alloc_ps_msg(const ps_priv_t *msg, ev_src_t *sub) {
@@ -123,8 +128,8 @@ static void tell_subscribers(void *data, void *value) {
 }
 
 static int tell_pubsub_msg(ps_priv_t *m, const m_mod_t *recipient, m_ctx_t *c) {
-    if (recipient) { // it is a direct tell
-        tell_if(m, NULL, (m_mod_t *)recipient);
+    if (recipient) { // it is a direct tell (eventually of a system message, that has got a topic: poisonpill)
+        tell_mod(m, NULL, (m_mod_t *)recipient);
     } else {
         /* Broadcast messages */
         if (!m->msg.topic) {
